@@ -318,6 +318,10 @@ func powerLossImages(ev fsEvent) []map[string][]byte {
 		}
 	}
 	if !changed {
+		if ev.kind == "return" {
+			// nothing to lose: the directory as it is when the call returns must still recover to what was acknowledged
+			return []map[string][]byte{all}
+		}
 		return nil
 	}
 	res = append(res, all)
